@@ -184,22 +184,27 @@ structure SessionResult (κ β : Type) where
   loadedRuns : List RunSt        -- right after loading
 deriving Repr
 
-def loadAll (rtK : κ → κ) (rtB : β → β) :
+def loadAllWith (ld : List (Line κ β) → Except LoadErr (Tables κ β × List (Loaded κ))) :
     List (List (Line κ β)) → Except LoadErr (List (FP κ β × List (Loaded κ)))
   | [] => .ok []
   | c :: cs =>
-    match load rtK rtB c with
+    match ld c with
     | .error e => .error e
     | .ok (t, ls) =>
-      match loadAll rtK rtB cs with
+      match loadAllWith ld cs with
       | .error e => .error e
       | .ok rest => .ok ((FP.ofTables c t, ls) :: rest)
 
-/-- one session: `order` is the iteration order of the run set -/
-def session (rtK : κ → κ) (rtB : β → β) (cfg : List (RunC κ)) (H : Harness) (sched : Sched)
+def loadAll (rtK : κ → κ) (rtB : β → β) :
+    List (List (Line κ β)) → Except LoadErr (List (FP κ β × List (Loaded κ))) :=
+  loadAllWith (load rtK rtB)
+
+/-- one session, given how the files are loaded: `order` is the iteration order of the run set -/
+def sessionWith (ldAll : List (List (Line κ β)) → Except LoadErr (List (FP κ β × List (Loaded κ))))
+    (cfg : List (RunC κ)) (H : Harness) (sched : Sched)
     (order : List Nat) (choices : List Nat) (stop : Option Nat)
     (contents : List (List (Line κ β))) : SessionResult κ β :=
-  match loadAll rtK rtB contents with
+  match ldAll contents with
   | .error e => { ending := .loadError e, contents := contents, trace := [], runs := [], loadedRuns := [] }
   | .ok loaded =>
     let runs0 := cfg.map (fun c => initRun c (loaded.map (·.2)))
@@ -211,6 +216,18 @@ def session (rtK : κ → κ) (rtB : β → β) (cfg : List (RunC κ)) (H : Harn
     { ending := match r.2 with | some true => .interrupted | some false => .complete | none => .outOfFuel,
       contents := r.1.files.map (·.content), trace := r.1.trace, runs := r.1.runs, loadedRuns := runs0 }
 
+/-- one session with the abstract loader -/
+def session (rtK : κ → κ) (rtB : β → β) (cfg : List (RunC κ)) (H : Harness) (sched : Sched)
+    (order : List Nat) (choices : List Nat) (stop : Option Nat)
+    (contents : List (List (Line κ β))) : SessionResult κ β :=
+  sessionWith benchOf (loadAll rtK rtB) cfg H sched order choices stop contents
+
+/-- one session reading the files at text level (`loadT`) -/
+def sessionT (colsOf : κ → List (List Char)) (rtK : κ → κ) (rtB : β → β) (cfg : List (RunC κ)) (H : Harness)
+    (sched : Sched) (order : List Nat) (choices : List Nat) (stop : Option Nat)
+    (contents : List (List (Line κ β))) : SessionResult κ β :=
+  sessionWith benchOf (loadAllWith (loadT colsOf rtK rtB)) cfg H sched order choices stop contents
+
 /-- a history of sessions on the same files -/
 def sessions (rtK : κ → κ) (rtB : β → β) (cfg : List (RunC κ)) (H : Harness) :
     List (Sched × List Nat × List Nat × Option Nat) → List (List (Line κ β)) →
@@ -219,6 +236,15 @@ def sessions (rtK : κ → κ) (rtB : β → β) (cfg : List (RunC κ)) (H : Har
   | (sched, order, choices, stop) :: rest, contents =>
     let r := session benchOf rtK rtB cfg H sched order choices stop contents
     r :: sessions rtK rtB cfg H rest r.contents
+
+/-- a history of sessions reading the files at text level -/
+def sessionsT (colsOf : κ → List (List Char)) (rtK : κ → κ) (rtB : β → β) (cfg : List (RunC κ)) (H : Harness) :
+    List (Sched × List Nat × List Nat × Option Nat) → List (List (Line κ β)) →
+    List (SessionResult κ β)
+  | [], _ => []
+  | (sched, order, choices, stop) :: rest, contents =>
+    let r := sessionT benchOf colsOf rtK rtB cfg H sched order choices stop contents
+    r :: sessionsT colsOf rtK rtB cfg H rest r.contents
 
 end
 
@@ -239,5 +265,33 @@ def delivers (H : Harness) (i t : Nat) : Bool :=
 longest prefix of `1..N` that all deliver data, or none if a build of the run fails -/
 def recordedInTheEnd {κ : Type} (H : Harness) (c : RunC κ) (i : Nat) : Nat :=
   if c.builds.all H.buildOk then prefLen (delivers H i) c.invocations else 0
+
+/-- the data points of one invocation as `_eval_output` numbers them (from `j + 1`) -/
+def numberDPs (inv : Nat) : Nat → List (List Meas) → List DP
+  | _, [] => []
+  | j, ms :: rest => { inv := inv, it := j + 1, ms := ms } :: numberDPs inv (j + 1) rest
+
+/-- the measurement rows (run, invocation, iteration, measurement) of invocation `inv` of run `i` -/
+def rowsOf {κ : Type} (cfg : List (RunC κ)) (H : Harness) (i inv : Nat) : List (κ × Nat × Nat × Meas) :=
+  match cfg[i]?, H.out i inv with
+  | some c, some dps => (numberDPs inv 0 dps).flatMap (dpProj c.key)
+  | _, _ => []
+
+/-- the rows of invocations `1..m` of run `i`, in order -/
+def expectedRows {κ : Type} (cfg : List (RunC κ)) (H : Harness) (i m : Nat) : List (κ × Nat × Nat × Meas) :=
+  (List.range m).flatMap (fun t => rowsOf cfg H i (t + 1))
+
+/-- the measurement rows of a file -/
+def measRows {κ β : Type} (c : List (Line κ β)) : List (κ × Nat × Nat × Meas) := c.filterMap measProj
+
+/-- configurations considered: distinct run identities, every run recorded in at least one of the
+`nfiles` data files, each file listed once -/
+structure CfgOK {κ : Type} (cfg : List (RunC κ)) (nfiles : Nat) : Prop where
+  keys : (cfg.map (·.key)).Nodup
+  files : ∀ c ∈ cfg, c.files ≠ [] ∧ c.files.Nodup ∧ ∀ f ∈ c.files, f < nfiles
+
+/-- every data point a harness delivers has a `total` whose value `float()` can read (what every adapter builds) -/
+def HarnessOK (H : Harness) : Prop :=
+  ∀ i t dps, H.out i t = some dps → ∀ ms ∈ dps, ∃ m ∈ ms, m.crit = "total" ∧ m.value.loads = true
 
 end RB.Session
